@@ -97,6 +97,14 @@ def quick_timer_duration(ctx, R="C04.R8"):
             for c_ in ast.walk(dn):
                 if isinstance(c_, ast.Call) and (dotted(c_.func) or "").endswith("QuickTimerMessage"):
                     dur_expr = next((k.value for k in c_.keywords if k.arg == "duration"), None)
+            for _ in range(3):
+                # an explaining local: `duration = timedelta(...)` ... `duration=duration`
+                if isinstance(dur_expr, ast.Name):
+                    defs = [a_ for a_ in ast.walk(dn) if isinstance(a_, ast.Assign) and len(a_.targets) == 1 and isinstance(a_.targets[0], ast.Name) and a_.targets[0].id == dur_expr.id]
+                    if len(defs) == 1:
+                        dur_expr = defs[0].value
+                        continue
+                break
             unp = next((a_ for a_ in ast.walk(dn) if isinstance(a_, ast.Assign) and isinstance(a_.targets[0], ast.Tuple) and isinstance(a_.value, ast.Call) and (dotted(a_.value.func) or "").split(".")[-1] in ("unpack_from", "unpack")), None)
             if dur_expr is None or unp is None or len(unp.targets[0].elts) < 2 or not all(isinstance(e_, ast.Name) for e_ in unp.targets[0].elts[-2:]):
                 raise AnalysisError(f"{m.relpath}: the decoded duration cannot be located in QuickTimerDecoder.decode")
@@ -427,6 +435,10 @@ def r2(ctx):
                     a = next((k.value for k in c.keywords if k.arg == p), None)
                     if a is None and p in order and order.index(p) < len(c.args):
                         a = c.args[order.index(p)]
+                    if isinstance(a, ast.Name) and not f.is_param(a.id, n):
+                        u_ = f.unique_def_value(a.id, n)  # an explaining local bound once to the mapped value
+                        if u_ is not None and u_[1] is not None:
+                            a = u_[1]
                     ctx.check(a is not None and norm_text(a) == EXPECT_ARG[key], R, f"{clsname}.{setter}:{p}", m, c, EXPECT_ARG[key], norm_text(a) if a is not None else "missing")
             if setter == "set_mode":
                 # power is TURN_ON iff power_on else UNCHANGED
